@@ -15,7 +15,10 @@ def workflows(rng, k):
     s = sp.src("src", paths)
     two = (k % 2 == 0)          # every other workflow has a task with two outputs (the shape of finding D2)
     outs = [("o", rng.choice(["{i:a}.w", "sub/{i:a|basename}.w"]))] + ([("o2", "{i:a}.w2")] if two else [])
-    a = sp.proc(t3.Proc("w", kind="cattok", ins=[("a", [(s, "out")])], outs=outs, sleep="sleep 0.01"))
+    empty = (k % 2 == 1)        # every other workflow has a task whose (correct, finalized) output is an empty file
+    if empty:
+        sp.files[paths[0]] = ""
+    a = sp.proc(t3.Proc("w", kind="cat" if empty else "cattok", ins=[("a", [(s, "out")])], outs=outs, sleep="sleep 0.01"))
     g = sp.proc(t3.Proc("g", kind="cattok", ins=[("a", [(a, "o")])], outs=[("o", "{i:a}.g")], gofunc=(k % 3 == 0)))
     if two:
         sp.proc(t3.Proc("z", kind="cat", ins=[("x", [(g, "o")]), ("y", [(a, "o2")])], outs=[("o", "{i:x}.z")]))
